@@ -171,6 +171,19 @@ func deepCopy(v value, memo map[*value]*value) value {
 // deepEqual mirrors reflect.DeepEqual on interpreter values; the result may be symbolic.
 func (in *interp) deepEqual(a, b value, seen map[[2]*value]bool) value {
 	and := func(xs ...value) value { return in.boolOp("and", xs...) }
+	if a == nil || b == nil {
+		// slots of an encoded json tree that were not written (json:"-", unexported, or omitempty
+		// with a zero value): two absent slots are equal; an absent slot equals a present one
+		// exactly when the present (symbolic) value is the zero value omitempty would have dropped
+		if a == nil && b == nil {
+			return true
+		}
+		o := a
+		if o == nil {
+			o = b
+		}
+		return in.isZeroValue(o)
+	}
 	switch a := a.(type) {
 	case structure:
 		bb, ok := b.(structure)
@@ -352,8 +365,24 @@ func jsonFields(st *types.Struct) []jsonField {
 	return out
 }
 
+// isZeroValue: v is the zero value of its type, as a value (bool or symbolic Bool); scalars and strings only.
+func (in *interp) isZeroValue(v value) value {
+	if in.isZeroConcrete(v) {
+		return true
+	}
+	if s, ok := v.(*Sym); ok {
+		if s.K == types.Bool {
+			return in.equals(nil, s, false)
+		}
+		return in.equals(nil, s, fromBits(s.K, 0))
+	}
+	return false
+}
+
 func (in *interp) isZeroConcrete(v value) bool {
 	switch v := v.(type) {
+	case symstr:
+		return len(v.b) == 0
 	case bool:
 		return !v
 	case string:
@@ -453,9 +482,18 @@ func (in *interp) jsonDecode(dt types.Type, dst *value, enc value) {
 		if len(es) != len(ds) {
 			unsupported("json: struct shape mismatch decoding into %v", dt)
 		}
+		omit := map[int]bool{}
+		for _, f := range jsonFields(u) {
+			omit[f.idx] = f.omitempty
+		}
 		for i := range es {
 			if es[i] == nil {
 				continue // absent (json:"-", unexported or omitted): destination untouched
+			}
+			if s, ok := es[i].(*Sym); ok && omit[i] && !in.isZeroConcrete(ds[i]) {
+				// a symbolic omitempty scalar is written only when it is not zero
+				ds[i] = in.ite(in.isZeroValue(s), ds[i], s)
+				continue
 			}
 			in.jsonDecode(u.Field(i).Type(), &ds[i], es[i])
 		}
